@@ -735,6 +735,49 @@ M("C18", "M18-5-ram-directory-create-if-absent-is-one-critical-section", dict(
   title="RamDirectory::open_write (the create-new primitive the default writer lock rests on): the file is created under ONE acquisition of the directory's write lock and 'already exists' is what that creation itself reports - no separate existence check, no read lock, no second acquisition (a check-then-create race lets several writers in); confirmed natively by the racing-creations probe",
   functions=["<RamDirectory as Directory>::open_write"], bounds="")
 
+M("C08", "M08-1-optional-index-writer-asks-the-readers-predicate", dict(
+    crate="columnar",
+    root=r"^column_index::optional_index::serialize_optional_index_block$", depth=1, unroll=2, inline=[], auto_inline=False,
+    native=[("probe", "optional_index_block_at_dense_threshold")], absent_ok_events=["predicate"],
+    events={"predicate": {"call": r"optional_index::is_sparse$"},
+            "sparse": {"call": r"SparseBlockCodec as .*SetCodec>::serialize"},
+            "dense": {"call": r"DenseBlockCodec as .*SetCodec>::serialize"},
+            "ret": {"ret": True}},
+    checks=[("precedes", "predicate", "sparse"), ("precedes", "predicate", "dense"), ("reach", "sparse"), ("reach", "dense")]),
+  title="optional index: the writer picks the sparse or the dense block encoding by the same predicate (`is_sparse(len)`) the reader uses to decode the block - a writer-side criterion of its own can disagree at the boundary (5120 values: both encodings take 10240 bytes) and the block is then decoded in the wrong format (confirmed natively by the threshold probe)",
+  functions=["columnar::column_index::optional_index::serialize_optional_index_block"], bounds="")
+
+M("C10", "M10-10-temp-docstore-untracked-on-the-published-meta", dict(
+    root=r"^indexer::index_writer::index_documents$", depth=1, unroll=2, inline=[], auto_inline=False,
+    native=[("probe", "no_temp_docstore_after_gc_on_sorted_index")],
+    events={"final_meta": {"call": r"Segment::with_max_doc$"},
+            "untrack": {"call": r"SegmentMeta::untrack_temp_docstore$"},
+            "ret": {"ret": True}},
+    checks=[("precedes", "final_meta", "untrack"), ("reach", "untrack")]),
+  title="a freshly written segment: the temporary doc store is untracked on the meta that is published (built by with_max_doc), not on the pre-finalization meta - otherwise `<uuid>.store.temp` stays in the living set and GC never removes it (confirmed natively by the sorted-index probe)",
+  functions=["index_writer::index_documents"], bounds="unroll 2")
+
+M("C12", "M12-2-intersection-fieldnorms-from-the-leader-after-sorting", dict(
+    root=r"^query::boolean_query::block_wand_intersection::block_wand_intersection$", depth=1, unroll=2, inline=[], auto_inline=False,
+    native=[("probe", "two_field_conjunction_scores")],
+    events={"sort": {"call": r"TermScorer\]>::sort_by_key"},
+            "fieldnorms": {"call": r"TermScorer::fieldnorm_reader$"},
+            "ret": {"ret": True}},
+    checks=[("precedes", "sort", "fieldnorms"), ("reach", "fieldnorms")]),
+  title="block-max intersection (TopDocs over Must term clauses): the leader's field-norm reader is taken after the scorers were ordered - field norms are per field, so a reader grabbed from `scorers[0]` before the sort scores the leader with another field's lengths (confirmed natively by the two-field conjunction probe)",
+  functions=["block_wand_intersection::block_wand_intersection"], bounds="unroll 2")
+
+M("C02", "M02-6-memory-cut-only-between-groups", dict(
+    root=r"^indexer::index_writer::index_documents$", depth=1, unroll=2, inline=[], auto_inline=False,
+    native=[("probe", "run_groups_survive_memory_cut")],
+    events={"next_group": {"call": r"dyn std::iter::Iterator<Item = smallvec::SmallVec<\[indexer::operation::AddOperation<D>; 4\]>> as std::iter::Iterator>::next$"},
+            "add": {"call": r"SegmentWriter::add_document"},
+            "budget": {"call": r"SegmentWriter::mem_usage$"},
+            "ret": {"ret": True}},
+    checks=[("requires_between", "budget", "next_group", "add"), ("reach", "budget"), ("reach", "add")]),
+  title="indexing worker: the memory budget is consulted between groups of operations only - after a budget check no document is added before the next group is fetched - so a segment cut never drops the rest of a `run` batch (confirmed natively by the run-groups probe)",
+  functions=["index_writer::index_documents"], bounds="unroll 2")
+
 # =============================================================================================
 # C03: mixed-type numeric range bounds (mirbv: loop-free integer MIR -> QF_BV)
 # =============================================================================================
